@@ -249,10 +249,24 @@ func (e *Exec) havocAll(st *State, why string, pos token.Pos) {
 			e.spec = saveSpec
 		}
 	}
+	type keep struct {
+		loc frameLoc
+		val *smt.Term
+	}
+	var keeps []keep
+	for _, l := range e.keepOnHavoc {
+		if hs, ok := e.heapSort[l.key]; ok {
+			keeps = append(keeps, keep{l, smt.Select(e.heap(st, l.key, hs), l.addr)})
+		}
+	}
 	for k := range st.Heaps {
 		delete(st.Heaps, k)
 	}
 	st.Epoch = e.newEpoch()
+	for _, k := range keeps {
+		hs := e.heapSort[k.loc.key]
+		st.Heaps[k.loc.key] = smt.Store(e.heap(st, k.loc.key, hs), k.loc.addr, k.val)
+	}
 	// ghost counters are observable effects too: an unknown callee may have bumped any of them
 	for k := range e.ghostNames {
 		st.Ghost["G|"+k] = e.fresh("g."+k, BV64)
